@@ -57,6 +57,8 @@ type concRun struct {
 	passes    int32
 	maxPasses int32
 	started   int32
+	// storm variant of mix c17: a started pass waits here until every request of the round has returned
+	stormGate atomic.Value // chan struct{}
 }
 
 var curConc *concRun
@@ -86,6 +88,12 @@ func concHook(point string, args ...interface{}) {
 			m := atomic.LoadInt32(&cr.maxPasses)
 			if n <= m || atomic.CompareAndSwapInt32(&cr.maxPasses, m, n) {
 				break
+			}
+		}
+		if g, ok := cr.stormGate.Load().(chan struct{}); ok && g != nil {
+			select {
+			case <-g:
+			case <-time.After(5 * time.Second):
 			}
 		}
 	case "gc.end":
@@ -550,6 +558,13 @@ func concEmit(c *Ctx, cr *concRun) {
 }
 
 // two GC requests on one bucket: together, and the second while the first is preparing / running
+func maxI32(a, b int32) int32 {
+	if a > b {
+		return a
+	}
+	return b
+}
+
 func concDoubleGC(c *Ctx, r *RNG, s *seqStore, cr *concRun, keys []string, newVal func() int) {
 	lr := rand.New(rand.NewSource(int64(r.Next())))
 	slot := new(int32)
@@ -569,6 +584,84 @@ func concDoubleGC(c *Ctx, r *RNG, s *seqStore, cr *concRun, keys []string, newVa
 		}
 	}
 	s.flushAll()
+	if r.Chance(40) {
+		// storm: many requests for the bucket released together, round after round; a pass that starts is held at its
+		// first step until every request of the round has returned, so whatever was accepted besides it shows up as a
+		// second accepted request / a second simultaneous pass (the window between "is a pass registered" and
+		// "register it" is a few hundred nanoseconds wide when the two are separate critical sections)
+		rounds := 30 + r.Intn(40)
+		nreq := 8 + r.Intn(25)
+		c.count("c17.storm")
+		worst := int32(0)
+		done := 0
+		for rd := 0; rd < rounds && worst <= 1; rd++ {
+			gate := make(chan struct{})
+			cr.stormGate.Store(gate)
+			accepted := int32(0)
+			ready := int32(0)
+			var wg sync.WaitGroup
+			for i := 0; i < nreq; i++ {
+				wg.Add(1)
+				go func() {
+					defer wg.Done()
+					atomic.AddInt32(&ready, 1)
+					for atomic.LoadInt32(&ready) < int32(nreq) {
+						runtime.Gosched()
+					}
+					guard2(func() {
+						_, _, err := s.hs.GC(0, 0, -1, 0, false, false)
+						if err == nil {
+							atomic.AddInt32(&accepted, 1)
+						}
+					})
+				}()
+			}
+			wg.Wait()
+			if a := atomic.LoadInt32(&accepted); a > worst {
+				worst = a
+			}
+			close(gate)
+			if atomic.LoadInt32(&accepted) == 0 {
+				// every request was refused (nothing left to collect): further rounds would show nothing
+				c.count("c17.storm.refused-round")
+				break
+			}
+			for i := 0; i < 20000; i++ {
+				if atomic.LoadInt32(&cr.passes) == 0 && atomic.LoadInt32(&cr.started) >= 1 {
+					break
+				}
+				time.Sleep(200 * time.Microsecond)
+			}
+			atomic.StoreInt32(&cr.started, 0)
+			// something to collect for the next round: a few writes, then a restart (the file written to becomes a
+			// file below the head)
+			for i := 0; i < 3; i++ {
+				v := newVal()
+				cr.doWrite(s, 0, keys[r.Intn(len(keys))], v, concValue(v, lr), slot)
+			}
+			s.flushAll()
+			guard(func() { s.hs.Close() })
+			s.quiesce()
+			if err := s.open(); err != nil {
+				c.line("open => REFUSED %v", err)
+				break
+			}
+			done++
+		}
+		c.count(fmt.Sprintf("c17.storm.rounds-with-a-pass=%d", done/10*10))
+		var nilGate chan struct{}
+		cr.stormGate.Store(nilGate)
+		c.line("gcreq n=%d storm=%d accepted=%d started=- maxconcurrent=%d", nreq, rounds, worst, maxI32(worst, atomic.LoadInt32(&cr.maxPasses)))
+		for _, k := range keys {
+			cr.doRead(s.hs, 0, k)
+		}
+		concEmit(c, cr)
+		guard(func() { s.hs.Close() })
+		s.quiesce()
+		theHub.takeFatal()
+		c.line("end")
+		return
+	}
 	merge := r.Chance(50)
 	delay := []int{0, 0, 50, 500, 3000}[r.Intn(5)] // microseconds between the two requests
 	accepted := int32(0)
